@@ -500,10 +500,72 @@ fn cli_lookup(rep: &Report, al: &Alpha) {
     rep.extra("cli_lookup", json!({"sections":n,"max_sections":depth,"keyrings":seqs.len(),"decrypt_runs":runs.load(Ordering::Relaxed)}));
 }
 
+/// "Every keyring the tool writes parses back", for keyrings assembled the way the documentation suggests: `key generate`
+/// printing to stdout with the shell appending (`>> F`), mixed with `-o F`, every sequence of up to three steps. After
+/// every step F is a well-formed keyring with all names so far, and a command that opens it (`decrypt -k F`) reads it.
+fn cli_stdout_append(rep: &Report) {
+    use crate::proc::{self, Cmd, Scratch};
+    let mut seqs: Vec<Vec<char>> = vec![];
+    for n in 1..=3usize {
+        for m in 0..(1u32 << n) {
+            seqs.push((0..n).map(|i| if m >> i & 1 == 1 { 's' } else { 'o' }).collect());
+        }
+    }
+    seqs.retain(|s| s.contains(&'s'));
+    seqs.par_iter().for_each(|seq| {
+        rep.eval(seq.len() as u64);
+        let label: String = seq.iter().collect();
+        rep.nontrivial(format!("cli-stdout-append-{}", label).as_bytes());
+        let attempt = || -> Result<(), String> {
+            let sc = Scratch::new();
+            for (i, how) in seq.iter().enumerate() {
+                let name = format!("key{}", i + 1);
+                let described: Vec<&str> = seq[..=i].iter().map(|c| if *c == 's' { "key generate >> F" } else { "key generate -o F" }).collect();
+                if *how == 's' {
+                    let o = proc::run(&Cmd::new(&["key", "generate", "--env-pass"]).env("KESTREL_PASSWORD", "pw").stdin(format!("{}\n", name).as_bytes()), &sc.0);
+                    o.well_behaved()?;
+                    if !o.ok() {
+                        return Err(format!("key generate to stdout fails: {}", o.summary()));
+                    }
+                    let mut cur = sc.read("F").unwrap_or_default();
+                    cur.extend_from_slice(&o.stdout);
+                    sc.write("F", &cur);
+                } else {
+                    let o = proc::run(&Cmd::new(&["key", "generate", "-o", "F", "--env-pass"]).env("KESTREL_PASSWORD", "pw").stdin(format!("{}\n", name).as_bytes()), &sc.0);
+                    o.well_behaved()?;
+                    if !o.ok() {
+                        return Err(format!("after {:?}: key generate -o F fails: {}", &described[..i], o.summary()));
+                    }
+                }
+                let text = String::from_utf8_lossy(&sc.read("F").unwrap_or_default()).to_string();
+                match classify(&text) {
+                    Class::WellFormed(es) if es.len() == i + 1 && (0..=i).all(|k| es.iter().any(|e| e.name == format!("key{}", k + 1) && e.sk.is_some())) => {}
+                    other => return Err(format!("after {:?} the file is not a well-formed keyring of {} keys: {:?}", described, i + 1, match other { Class::WellFormed(es) => format!("{} entries", es.len()), Class::Bad(w) => w.to_string(), Class::Open => "not in the well-formed subset".to_string() })),
+                }
+                // a command that opens the keyring reads it: extract the newest public key by encrypting to it
+                sc.write("plain.bin", b"x");
+                let o = proc::run(&Cmd::new(&["encrypt", "plain.bin", "-t", &name, "-f", "key1", "-k", "F", "-o", "out.ktl", "--env-pass"]).env("KESTREL_PASSWORD", "pw"), &sc.0);
+                o.well_behaved()?;
+                if !o.ok() {
+                    return Err(format!("after {:?} the tool cannot use the keyring it wrote: {}", described, o.summary()));
+                }
+            }
+            Ok(())
+        };
+        if attempt().is_err() {
+            if let Err(e) = attempt() {
+                rep.violation("cli/keyring-assembled-from-stdout", json!({"kind":"cli-append","sequence":label}), e);
+            }
+        }
+    });
+    rep.extra("cli_stdout_append_sequences", json!(seqs.len()));
+}
+
 pub fn run(rep: &'static Report) {
     let seed = rep.seed;
     kra::note(rep);
     rep.set_rule("E-GRID: every sequence of <= 6 (quick) / 7 (thorough) lines over a 15-token alphabet (with/without final newline), every sequence of <= 4 lines over a reduced alphabet with line decorations, the serialize->parse round trip for every name of <= 3 characters over a 9-character alphabet and boundary lengths, and every single-character substitution / checksum perturbation of encoded public keys; each text is parsed by the real parser and compared with REF's reading. distinct non-trivial = texts that REF classifies as well-formed or as unambiguously bad (the others only check 'no crash') + round-trip names + key strings");
+    rep.rule_add("Keyrings assembled from `key generate` output appended by the shell and/or -o, every sequence of <= 3 steps: well-formed after every step and usable by the tool.");
     rep.rule_add("CLI lookup through kestrel decrypt for every sequence of <=2/3 sections x 3 senders and 6 recipient-entry variants; names typed at key generate.");
     rep.assume("the statement gives necessary conditions for acceptance: texts using constructs it leaves open (duplicate fields in a section, fields outside a section, junk lines, no section) are only checked for 'no crash'");
     let al = alphabet(seed);
@@ -771,11 +833,16 @@ pub fn run(rep: &'static Report) {
     });
     rep.extra("public_key_strings", json!(strs.len()));
     rep.mute(false);
+    cli_stdout_append(rep);
     rep.set_exhaustive(true);
     let _ = Tier::Quick;
 }
 
 pub fn replay(rep: &'static Report, case: &Value) {
+    if case["kind"] == "cli-append" {
+        cli_stdout_append(rep);
+        return;
+    }
     let al = alphabet(rep.seed);
     match case["kind"].as_str().unwrap_or("") {
         "text" => {
